@@ -53,6 +53,28 @@ def leaf_op(mf):
     return None
 
 
+def oracle_command_shapes(d):
+    """C09 generator clause: key-independent map method name -> (size_in, nbytes_in, size_out, nbytes_out) as declared:
+    size 0 / empty slice when the command has no input (output) fields."""
+    cmds = {}
+    for o, _ in adef.walk(d["objects"]):
+        if o["kind"] == "command":
+            cmds[o["name"]] = o
+    out = {}
+    for o, _ in adef.walk(d["objects"]):
+        t = None
+        if o["kind"] == "command":
+            t = o
+        elif o["kind"] == "ref" and o["override"]["kind"] == "command":
+            t = cmds.get(o["target"])
+        if t is None:
+            continue
+        si = (t.get("size_bits_in") or 0) if t.get("fields_in") else 0
+        so = (t.get("size_bits_out") or 0) if t.get("fields_out") else 0
+        out[o["name"].lower()] = (si, (si + 7) // 8, so, (so + 7) // 8)
+    return out
+
+
 def oracle_addresses(d):
     """property formula from the abstract definition: key -> address (valid index tuples only)"""
     out = {}
@@ -89,6 +111,53 @@ def oracle_addresses(d):
     return out
 
 
+def add_boundary_object(rng, d):
+    """Make the largest (or smallest) reachable address land exactly on / next to an integer-width boundary, reached
+    only as a SUM (offset + address + index*stride), so that the internal address type is exercised at its edge."""
+    cfg = d["config"]
+    kind = rng.choice(["register", "command"])
+    at = cfg.get(kind + "_address_type") or "u8"
+    lo, hi = adef.INT_RANGE[at]
+    cands = [b + delta for b in (127, 128, 255, 256, 32767, 32768, 65535, 65536, 2 ** 31 - 1, 2 ** 31, 2 ** 32 - 1)
+             for delta in (0,) if lo <= b + delta <= hi]
+    negs = [-b for b in (128, 129, 32768, 32769, 2 ** 31) if lo <= -b <= hi]
+    if not cands:
+        return
+    target = rng.choice(cands + negs) if negs and rng.random() < 0.3 else rng.choice(cands)
+    count = rng.choice([2, 3, 4])
+    stride = rng.choice([1, 2, 16, 64]) * (1 if target > 0 else -1)
+    off = rng.choice([0, 8, 100]) * (1 if target > 0 else -1)
+    if abs(off) + abs(stride) * (count - 1) >= abs(target):
+        off = 0
+        if abs(stride) * (count - 1) >= abs(target):
+            stride = 1 if target > 0 else -1
+    addr = target - off - stride * (count - 1)
+    if kind == "register":
+        # negative strides on readable registers with unsigned types do not compile (D8)
+        leaf = adef.mk_register("Rzz", addr, 8, [adef.mk_field("val", "uint", 0, 8)], repeat={"count": count, "stride": stride},
+                                access="WO" if (stride < 0 and at.startswith("u")) else None)
+    else:
+        leaf = adef.mk_command("Rzz", addr, repeat={"count": count, "stride": stride})
+    if off:
+        d["objects"].append(adef.mk_block("Bzz", [leaf], address_offset=off))
+    else:
+        d["objects"].append(leaf)
+
+
+def in_known_overflow_class(key, pl_def):
+    """D3: the path goes through a repeated block at a non-zero index (the min/max walk ignores block repeats for
+    children, so IT/AT may be too small) — C13's known findings."""
+    blocks = {}
+    for o, _ in adef.walk(pl_def["objects"]):
+        if o["kind"] == "block":
+            blocks[o["name"].lower()] = o
+    for step in key.split("/")[:-1]:
+        m = re.fullmatch(r"([a-z_0-9]+)\[(\d+)\]", step)
+        if m and int(m.group(2)) > 0 and m.group(1) in blocks:
+            return True
+    return False
+
+
 def run(ctx):
     info = vlib.coq_gate(ctx)
     exe, err = gen_common.build_gen_runner(ctx)
@@ -107,6 +176,8 @@ def run(ctx):
         d = gendev.gen_device(rng, prof)
         if not d["objects"]:
             continue
+        if rng.random() < 0.5:
+            add_boundary_object(rng, d)
         cid = f"m{len(cases)}"
         defs[cid] = d
         syntax = rng.choice(["dsl", "dsl", "json"])
@@ -189,6 +260,7 @@ def run(ctx):
             for cid, pl in plan.items():
                 c = byid[cid]
                 oracle = oracle_addresses(pl["def"])
+                shapes_c = oracle_command_shapes(pl["def"])
                 for key, want_v in pl["exp"].items():
                     nq += 1
                     g = got[cid].get(key)
@@ -204,6 +276,9 @@ def run(ctx):
                         hist["overflow_paths"] += 1
                         if not (rest.startswith("PANIC") and "overflow" in rest):
                             viol.append((c, f"{key}: model predicts an arithmetic overflow panic (debug build)", g, want_v))
+                        elif key in oracle and not (in_known_overflow_class(key, pl["def"]) and "D3" in known):
+                            viol.append((c, f"{key}: valid indices, mathematically defined address {oracle[key]}, but the generated address "
+                                            f"arithmetic overflows its internal type (debug panic before the interface is touched)", g, str(oracle[key])))
                     else:
                         if rest.startswith("PANIC"):
                             viol.append((c, f"{key}: valid indices but the accessor panicked", g, want_v))
@@ -216,6 +291,14 @@ def run(ctx):
                             viol.append((c, f"{key}: expected exactly one interface call", g, want_v))
                         if key in oracle and str(oracle[key]) != want_v:
                             viol.append((c, f"{key}: the model of the emitted arithmetic ({want_v}) differs from the property's formula ({oracle[key]})", g, want_v))
+                        if leaf_kind == "CMD" and len(toks) >= 6:
+                            mname = re.sub(r"\[.*", "", key.split("/")[-1])
+                            if mname in shapes_c:
+                                si, ni, so, no = shapes_c[mname]
+                                seen = (int(toks[2]), len(toks[3]) // 2, int(toks[4]), len(toks[5]) // 2)
+                                if seen != (si, ni, so, no):
+                                    viol.append((c, f"{key}: dispatch transferred (size_in, bytes_in, size_out, bytes_out) = {seen}, declared {(si, ni, so, no)}", g, want_v))
+                                hist["command_dispatches"] += 1
                         if addr != want_v:
                             viol.append((c, f"{key}: interface saw address {addr}, mathematically defined address is {want_v}", g, want_v))
                 for bkey, want_items in pl["ra"].items():
